@@ -119,6 +119,7 @@ class TransferManager(BaseManager):
         )
         self._management_lock: asyncio.Lock = asyncio.Lock()
         self._management_flags: _RequestFlag = _RequestFlag(0)
+        self._last_shares_evaluation: float = 0.0
 
         self._MESSAGE_MAP = build_message_map(self)
 
@@ -532,7 +533,14 @@ class TransferManager(BaseManager):
         flags = self._management_flags
         self._management_flags = _RequestFlag(0)
 
+        # A change of the friends or block list that is reverted before the
+        # settings are polled again does not emit an event: evaluate the
+        # uploads periodically as well
+        if start - self._last_shares_evaluation >= IDLE_TRANSFER_MGMT_INTERVAL:
+            flags |= _RequestFlag.SHARES_CHANGE
+
         if flags & _RequestFlag.SHARES_CHANGE:
+            self._last_shares_evaluation = start
             await self.manage_shares_changed()
 
         await self.manage_user_tracking()
